@@ -632,6 +632,9 @@ func (w *writer) failf(format string, args ...any) error {
 func (w *writer) free() {
 	if w.releaseWriter {
 		w.reset()
+		// The writer stays closed while it is in the pool, acquire resets it.
+		// Otherwise a late Free/End of the previous owner would release it a second time.
+		w.err = errClosed
 		writerPool.Put(w)
 		return
 	}
